@@ -1,11 +1,16 @@
-import NitroVerif.Lemmas.CheckOpComplete
+import NitroVerif.Lemmas.CheckOpCompleteDefs
 /-!
 # C04 — `check` raises no diagnostic on spec-valid operation documents
 
 Property theorems only. Model and reference validator as for C03 (`Model/CheckOp.lean`, `Spec/Valid.lean`).
-Proved here: the document-level part of completeness (the duplicate-name and lone-anonymous diagnostics of
-the main loop of `check_operation_document` are never raised on a spec-valid document). The full statement
-is kept in the OPEN block at the end and is carried by the K and O streams of `harness/src/bin/c04.rs`.
+Proved here, for all schemas and documents: completeness of every part of the checker model — the main loop's
+header diagnostics, variable definitions, fragment targets, directives at every location, `check_value` (all
+values, by structural induction), arguments and field lookup, the selection-set walk through fields, inline
+fragments and (by fuel, with fuel adequacy) fragment spreads, the subscription root count, the direct walk of
+fragment definitions — and their assembly `C04_no_false_alarm_partial`: `checkOp S D = []` for every spec-valid
+document against a valid schema, under three decidable side conditions. The statement without the side conditions
+is FALSE of the model; each side condition is shown necessary by a concrete witness
+(`C04_no_false_alarm_counterexample_*`). Helper lemmas: `Lemmas/CheckOpComplete*.lean`.
 -/
 namespace NitroVerif.CheckOp
 open NitroVerif.Gql NitroVerif.CheckCommon NitroVerif.Valid
@@ -113,22 +118,352 @@ theorem C04_no_false_alarm_fragment_targets (S : Schema) (D : Doc) (hv : SpecVal
     refine ⟨t, rfl, isComposite_directFields ?_⟩
     simpa [Schema.kindOf?, ht] using e2
 
+/-! ### witnesses used by the non-vacuity examples of the theorems below -/
+
+/-- the five built-in scalars, `@skip`-like directive `@when(if: Boolean!)`, an input object, an enum, a union,
+    `Query` and `Subscription` -/
+def c04Schema : Schema := ⟨[
+  .typeDef { kind := .scalar, name := "Int" }, .typeDef { kind := .scalar, name := "Float" },
+  .typeDef { kind := .scalar, name := "String" }, .typeDef { kind := .scalar, name := "Boolean" },
+  .typeDef { kind := .scalar, name := "ID" },
+  .directiveDef { name := "when", args := [{ name := "if", ty := .nonNull (.named "Boolean" {}) }],
+                  locations := ["FIELD", "FRAGMENT_SPREAD", "INLINE_FRAGMENT"] },
+  .typeDef { kind := .enum, name := "Color", values := [{ name := "RED" }, { name := "GREEN" }] },
+  .typeDef { kind := .input, name := "Filter",
+             inputs := [{ name := "color", ty := .named "Color" {} },
+                        { name := "ids", ty := .list (.nonNull (.named "ID" {})) {} }] },
+  .typeDef { kind := .object, name := "A", fields := [{ name := "x", ty := .named "Int" {} }] },
+  .typeDef { kind := .union, name := "U", members := [("A", {}), ("Query", {})] },
+  .typeDef { kind := .object, name := "Query",
+             fields := [{ name := "a", ty := .named "Int" {} },
+                        { name := "u", ty := .named "U" {} },
+                        { name := "f", args := [{ name := "x", ty := .nonNull (.named "Int" {}) },
+                                                { name := "w", ty := .named "Filter" {} }],
+                          ty := .named "Query" {} }] },
+  .typeDef { kind := .object, name := "Subscription", fields := [{ name := "tick", ty := .named "Int" {} }] }]⟩
+
+/-- `query Q($v: Int!, $b: Boolean! = true, $c: Color) { a @when(if: $b)  f(x: $v, w: {color: $c, ids: [1, "z"]}) { a ...F }
+      u { ... on A { x } } }   subscription S { ...T }   fragment F on Query { a u { __typename } }
+    fragment T on Subscription { tick }` -/
+def c04Doc : Doc := [
+  .op { kind := .query, name := some ("Q", {}),
+        vars := [{ name := "v", ty := .nonNull (.named "Int" {}) },
+                 { name := "b", ty := .nonNull (.named "Boolean" {}), default := some (.bool true {}) },
+                 { name := "c", ty := .named "Color" {} }],
+        sel := [.field none "a" {} [] [{ name := "when", args := [("if", {}, .var "b" {})] }] none,
+                .field none "f" {} [("x", {}, .var "v" {}),
+                                    ("w", {}, .obj [("color", {}, .var "c" {}),
+                                                    ("ids", {}, .list [.int "1" {}, .str "z" {}] {})] {})] []
+                  (some [.field none "a" {} [] [] none, .spread "F" {} [] {}]),
+                .field none "u" {} [] [] (some [.inline (some ("A", {})) [] [.field none "x" {} [] [] none] {}])] },
+  .op { kind := .subscription, name := some ("S", {}), sel := [.spread "T" {} [] {}] },
+  .frag { name := "F", cond := "Query",
+          sel := [.field none "a" {} [] [] none,
+                  .field none "u" {} [] [] (some [.field none "__typename" {} [] [] none])] },
+  .frag { name := "T", cond := "Subscription", sel := [.field none "tick" {} [] [] none] }]
+
+/-- the hypotheses of the theorems below are satisfiable by a non-trivial schema and document (variables with and
+    without defaults, a directive with a variable argument, an input-object literal with a nested list, an enum
+    variable, named and inline fragments, a union, a subscription through a fragment) -/
+example : SchemaValid c04Schema ∧ SpecValid c04Schema c04Doc ∧ noEmptyUnionB c04Schema = true ∧
+    rootsDefinedB c04Schema c04Doc = true ∧ constVarDefsB c04Doc = true := by decide +kernel
+
+/-! ### 1. directives -/
+
+/-- C04, directives: on a spec-valid document `check_directives` reports nothing at any location — for every
+    directive list in the scope of an operation (the operation, its variable definitions, and the fields, fragment
+    spreads, inline fragments and fragment definitions it reaches) checked with the operation's variables; and for
+    every directive list of the document checked without variables in scope, nothing but `UnknownVariable`
+    (the `without_variable_checks` mode of fragment definitions): no `UnknownDirective`,
+    `DirectiveLocationNotAllowed`, `RepeatedDirective`, nor any diagnostic about the directives' arguments. -/
+theorem C04_directives_complete (S : Schema) (D : Doc) (hS : SchemaValid S) (hv : SpecValid S D) :
+    (∀ o ∈ opsOf D, ∀ site ∈ opDirSites S D o, checkDirectives S (some o.vars) site.2 site.1 = []) ∧
+    (∀ site ∈ dirSites S D, withoutVariableChecks (checkDirectives S none site.2 site.1) = []) := by
+  have R := rules_of_valid hv
+  refine ⟨?_, ?_⟩
+  · intro o ho site hs
+    apply quiet_none_iff.mp
+    apply dirSite_quiet hS R (opDirSites_sub R ho site hs)
+    -- the variable usages in the directives' arguments are those of the operation's scope (5.8.3, 5.8.5)
+    have hu : UsesOK S allowNone (some o.vars) (fieldArgSites S (opCtxs S D o) ++ dirArgSites S (opDirSites S D o)) := by
+      intro tv htv u hu
+      have hmem : u ∈ opVarUses S D o := by
+        simp only [opVarUses, List.mem_flatMap]; exact ⟨tv, htv, hu⟩
+      have ho' : o ∈ Valid.ops D := by rw [ops_eq]; exact ho
+      have h3 := List.all_eq_true.mp (List.all_eq_true.mp R.r8_3 o ho') u hmem
+      have h5 := List.all_eq_true.mp (List.all_eq_true.mp R.r8_5 o ho') u hmem
+      cases hf : o.vars.find? (·.name == u.name) with
+      | none =>
+        exfalso
+        obtain ⟨v, hv', hvn⟩ := List.any_eq_true.mp h3
+        rw [List.find?_eq_none] at hf
+        exact hf v hv' hvn
+      | some vd =>
+        simp only [hf] at h5
+        unfold UseQuiet
+        rw [varCheck_of_allowed hf h5]
+        exact quiet_nil
+    apply usesOK_mono _ hu
+    intro s hs'
+    exact List.mem_append_right _ (dirArgSites_mono (fun x hx => by simp at hx; subst hx; exact hs) s hs')
+  · intro site hs
+    exact quiet_uv_iff.mpr (dirSite_quiet hS R hs (usesOK_uv S _))
+
+example : ∃ o ∈ opsOf c04Doc, ∃ site ∈ opDirSites c04Schema c04Doc o, site.2 ≠ [] := by decide
+
+/-! ### 2. values and variable usages -/
+
+/-- C04, values: `check_value` accepts every value the specification's input coercion accepts. For every value `v`
+    (nested lists and input objects at any depth) expected at a position of type `t` whose named type is an input
+    type of a valid schema: if the specification's value rules 5.6.1 – 5.6.4 find no issue in `v`
+    (`valueIssues S v t = []`) and every variable usage inside `v` is accepted, `check_value` reports nothing. -/
+theorem C04_values_complete (S : Schema) (hS : SchemaValid S) (vars : Option (List VarDef)) (v : Value) (t : GType)
+    (ld : Bool) (ht : ∃ td, S.typeDef? t.unwrapped = some td ∧ Schema.isInputKind td.kind = true)
+    (hvi : valueIssues S v t = [])
+    (hu : ∀ u ∈ varUses S v t ld, varCheck vars u.name u.pos u.locTy u.locDefault = []) :
+    checkValue S vars v t ld = [] := by
+  apply quiet_none_iff.mp
+  apply checkValue_complete' (schemaValid_uniqueArgs hS) (schemaFacts_of_valid hS).inputTy ht hvi
+  intro u huu
+  unfold UseQuiet
+  rw [hu u huu]; exact quiet_nil
+
+example : (∃ td, c04Schema.typeDef? (GType.named "Filter" {}).unwrapped = some td ∧ Schema.isInputKind td.kind = true) ∧
+    valueIssues c04Schema (.obj [("color", {}, .enum "RED" {}), ("ids", {}, .list [.int "1" {}, .str "z" {}] {})] {})
+      (.named "Filter" {}) = [] := by decide
+
+/-- C04, variable usages (5.8.5, with the default-value exceptions): a usage of a defined variable that the
+    specification's `IsVariableUsageAllowed` allows is accepted by the variable case of `check_value_at`. -/
+theorem C04_variable_usage_complete (vars : List VarDef) (u : VarUse) (vd : VarDef)
+    (hf : vars.find? (·.name == u.name) = some vd) (h : usageAllowed vd u = true) :
+    varCheck (some vars) u.name u.pos u.locTy u.locDefault = [] :=
+  varCheck_of_allowed hf h
+
+example : ([{ name := "b", ty := .named "Boolean" {}, default := some (.bool true {}) }] : List VarDef).find?
+      (·.name == (⟨"b", {}, .nonNull (.named "Boolean" {}), false⟩ : VarUse).name)
+        = some { name := "b", ty := .named "Boolean" {}, default := some (.bool true {}) } ∧
+    usageAllowed { name := "b", ty := .named "Boolean" {}, default := some (.bool true {}) }
+      ⟨"b", {}, .nonNull (.named "Boolean" {}), false⟩ = true := ⟨rfl, rfl⟩
+
+/-! ### 3. arguments and field lookup -/
+
+/-- C04, arguments (5.4.1, 5.4.2, 5.4.2.1 and the values): on a spec-valid document `check_arguments` reports
+    nothing for any argument list in the scope of an operation (fields and directives, also inside the fragments the
+    operation reaches) checked with the operation's variables; and for every argument list of the document checked
+    without variables in scope, nothing but `UnknownVariable`. -/
+theorem C04_arguments_complete (S : Schema) (D : Doc) (hS : SchemaValid S) (hv : SpecValid S D) :
+    (∀ o ∈ opsOf D, ∀ site ∈ fieldArgSites S (opCtxs S D o) ++ dirArgSites S (opDirSites S D o), ∀ pos,
+      checkArguments S (some o.vars) pos site.args site.defs = []) ∧
+    (∀ site ∈ argSites S D, ∀ pos, withoutVariableChecks (checkArguments S none pos site.args site.defs) = []) := by
+  have R := rules_of_valid hv
+  refine ⟨?_, ?_⟩
+  · intro o ho site hs pos
+    apply quiet_none_iff.mp
+    have hmem := opArgSites_sub R ho site hs
+    apply argSite_quiet hS R hmem (argSites_args_nodup hS R site hmem) _ pos
+    intro tv htv u hu
+    have hmem' : u ∈ opVarUses S D o := by
+      simp only [opVarUses, List.mem_flatMap]; exact ⟨tv, typedValuesOf_of_mem hs htv, hu⟩
+    have ho' : o ∈ Valid.ops D := by rw [ops_eq]; exact ho
+    have h3 := List.all_eq_true.mp (List.all_eq_true.mp R.r8_3 o ho') u hmem'
+    have h5 := List.all_eq_true.mp (List.all_eq_true.mp R.r8_5 o ho') u hmem'
+    cases hf : o.vars.find? (·.name == u.name) with
+    | none =>
+      exfalso
+      obtain ⟨v, hv', hvn⟩ := List.any_eq_true.mp h3
+      rw [List.find?_eq_none] at hf
+      exact hf v hv' hvn
+    | some vd =>
+      simp only [hf] at h5
+      unfold UseQuiet
+      rw [varCheck_of_allowed hf h5]
+      exact quiet_nil
+  · intro site hs pos
+    exact quiet_uv_iff.mpr (argSite_quiet hS R hs (argSites_args_nodup hS R site hs) (usesOK_uv S _) pos)
+
+example : ∃ o ∈ opsOf c04Doc, ∃ site ∈ fieldArgSites c04Schema (opCtxs c04Schema c04Doc o), site.args.length = 2 := by
+  decide
+
+/-- C04, field lookup (5.3.1, 5.3.3): on a spec-valid document every field selected anywhere with the type `t` in
+    scope is found among `direct_fields_of_output_type(t)` (no `FieldNotFound`), its type is defined (no
+    `TypeSystemError`), and it has a sub-selection exactly when its type is composite (no `MustSpecifySelectionSet`,
+    no `SelectionOnInvalidType`). -/
+theorem C04_field_lookup_complete (S : Schema) (D : Doc) (hS : SchemaValid S) (hv : SpecValid S D) :
+    ∀ t al name namePos args dirs sel, (some t, Selection.field al name namePos args dirs sel) ∈ allSels (allCtxs S D) →
+      ∀ root fields, S.typeDef? t = some root → directFields root = some fields →
+        ∃ fd, fields.find? (·.name == name) = some fd ∧ ∃ ft, S.typeDef? fd.ty.unwrapped = some ft ∧
+          sel.isSome = (directFields ft).isSome := by
+  intro t al name namePos args dirs sel hps root fields hroot hdf
+  obtain ⟨fd, hfd, hrest⟩ := field_lookup_ok hS (rules_of_valid hv) hps
+  exact ⟨fd, by rw [← fieldDef?_eq_find (schemaValid_noReserved hS) hroot hdf]; exact hfd, hrest⟩
+
+/-! ### 4. the selection-set walk, with fuel adequacy -/
+
+/-- C04, the walk: on a spec-valid document (valid schema without empty unions) the walk `check_selection_set` of
+    every operation — through fields, inline fragments and, by fuel, fragment spreads, with the operation's
+    variables in scope — reports nothing. In particular the fuel is adequate: by 5.5.2.1 and 5.5.2.2 a spread
+    fragment is defined and never on the stack, every push makes the number of fragments not on the stack strictly
+    smaller, and the initial fuel exceeds that number, so neither the stack check nor the "fuel exhausted" branch
+    (both `RecursingFragmentSpread`) is ever taken. -/
+theorem C04_walk_complete (S : Schema) (D : Doc) (hS : SchemaValid S) (hNE : noEmptyUnionB S = true)
+    (hv : SpecValid S D) :
+    ∀ o ∈ opsOf D, ∀ root, S.typeDef? (S.rootName o.kind) = some root →
+      checkSelectionSet S (spreadHandler S D (fuelFor D)) [] (some o.vars) root o.sel o.pos = [] :=
+  fun _ ho _ hroot => op_walk_complete hS hNE (rules_of_valid hv) ho hroot
+
+/-! ### 5. subscription root count, variable definitions, fragment definitions -/
+
+/-- C04, subscriptions (5.2.3.1): on a spec-valid document `selection_set_has_more_than_one_fields` is false for
+    every subscription — the response keys it collects (through inline fragments and fragment spreads) are among
+    those of the specification's `CollectFields`, of which there is exactly one. -/
+theorem C04_subscription_complete (S : Schema) (D : Doc) (hv : SpecValid S D) :
+    ∀ o ∈ opsOf D, o.kind = .subscription → hasMoreThanOneField D o.sel = false := by
+  intro o ho hk
+  have R := rules_of_valid hv
+  have ho' : o ∈ Valid.ops D := by rw [ops_eq]; exact ho
+  have h231 := List.all_eq_true.mp R.r2_3_1 o ho'
+  have hne : (o.kind != OpKind.subscription) = false := by rw [hk]; rfl
+  simp only [hne, Bool.false_or, beq_iff_eq] at h231
+  have hnd : nodupB (fragNamesOf D) = true := by
+    simpa [rule_5_5_1_1, fragNamesOf, frags_eq] using R.r5_1_1
+  -- every spread inside a fragment definition is defined (5.5.2.1)
+  have hSD : SpreadsDefined D := by
+    intro f hf n hn
+    obtain ⟨p, np, ds, ps, hmem⟩ := spread_in_allSels S n _ f.sel (Nat.le_refl _) hn (some f.cond)
+    have hmem' : (p, Selection.spread n np ds ps) ∈ allSels (allCtxs S D) := by
+      apply allSels_mono (ctxsOfDef_sub (d := .frag f) (frag_mem_doc hf))
+      simpa [ctxsOfDef, ctxsOfRoot] using hmem
+    have := List.all_eq_true.mp R.r5_2_1 _ hmem'
+    simp only [frag?_eq_fragMap hnd] at this
+    cases hm : fragMap D n with
+    | none => simp [hm] at this
+    | some g =>
+      obtain ⟨hgm, hgn⟩ := fragMap_mem hm
+      rw [← hgn]; exact List.mem_map.mpr ⟨g, hgm, rfl⟩
+  exact hasMoreThanOneField_false hnd hSD h231
+
+example : ∃ o ∈ opsOf c04Doc, o.kind = .subscription := by decide
+
+/-- C04, variable definitions: on a spec-valid document whose variable definitions are constant (no variable inside
+    a default value or inside a directive of a variable definition — the grammar's `Value[Const]`,
+    `Directives[Const]`), `check_variables_definition` reports nothing: names, types, directives and default
+    values. -/
+theorem C04_variable_definitions_complete (S : Schema) (D : Doc) (hS : SchemaValid S) (hNE : noEmptyUnionB S = true)
+    (hv : SpecValid S D) (hconst : constVarDefsB D = true) :
+    ∀ o ∈ opsOf D, checkVariablesAux S [] o.vars = [] :=
+  fun _ ho => checkVariablesAux_complete hS hNE (rules_of_valid hv) ho hconst
+
+/-- C04, fragment definitions: on a spec-valid document `check_fragment_definition` reports nothing, whether or not
+    `fragments_used_by_operations` contains the fragment — in particular the direct walk of a fragment no operation
+    spreads (its own name on the stack, no variables in scope, `UnknownVariable` filtered) is silent. -/
+theorem C04_fragment_definitions_complete (S : Schema) (D : Doc) (hS : SchemaValid S) (hNE : noEmptyUnionB S = true)
+    (hv : SpecValid S D) :
+    ∀ f ∈ fragsOf D, ∀ used, checkFragmentDefinition S D used f = [] :=
+  fun _ hf used => checkFragmentDefinition_complete hS hNE (rules_of_valid hv) hf used
+
+/-! ### 6. the whole checker -/
+
+/-- C04, every definition: under the three side conditions the body of every definition (`check_operation` /
+    `check_fragment_definition`) reports nothing. -/
+theorem C04_no_false_alarm_bodies (S : Schema) (D : Doc) (hS : SchemaValid S) (hv : SpecValid S D)
+    (hNE : noEmptyUnionB S = true) (hroots : rootsDefinedB S D = true) (hconst : constVarDefsB D = true) :
+    ∀ d ∈ D, defBody S D d = [] :=
+  defBody_complete hS hNE (rules_of_valid hv) hroots hconst
+
+/-- **C04 (partial: three decidable side conditions).** `check` raises no diagnostic on a spec-valid document:
+    for every valid schema `S` and every document `D` valid under the specification, `checkOp S D = []` — provided
+    (a) no union type of the schema is empty, (b) the schema has a root type for the kind of every operation of the
+    document, (c) default values and directives of variable definitions contain no variables. Each of (a), (b), (c)
+    is necessary (`C04_no_false_alarm_counterexample_*` below): `SchemaValid` / `SpecValid` as transcribed do not
+    imply them, and the checker is (rightly) stricter. -/
+theorem C04_no_false_alarm_partial (S : Schema) (D : Doc) (hS : SchemaValid S) (hv : SpecValid S D)
+    (hNE : noEmptyUnionB S = true) (hroots : rootsDefinedB S D = true) (hconst : constVarDefsB D = true) :
+    checkOp S D = [] :=
+  checkOp_nil_of (C04_no_false_alarm_document_level S D hv) (C04_no_false_alarm_bodies S D hS hv hNE hroots hconst)
+
+/-- the model accepts the witness document (as the theorem says) -/
+example : checkOp c04Schema c04Doc = [] := by decide
+
+/-! ### the statement without side conditions is false of the model -/
+
+def cexScalars : List TsItem := [
+  .typeDef { kind := .scalar, name := "Int" }, .typeDef { kind := .scalar, name := "Float" },
+  .typeDef { kind := .scalar, name := "String" }, .typeDef { kind := .scalar, name := "Boolean" },
+  .typeDef { kind := .scalar, name := "ID" }]
+
+/-- `union U =` (no members; the nitrogql grammar and schema check accept it), `type Query { u: U }` -/
+def cexSchemaEmptyUnion : Schema := ⟨cexScalars ++ [
+  .typeDef { kind := .union, name := "U" },
+  .typeDef { kind := .object, name := "Query", fields := [{ name := "u", ty := .named "U" {} }] }]⟩
+/-- `{ u { ... on U { __typename } } }` -/
+def cexDocEmptyUnion : Doc := [
+  .op { kind := .query,
+        sel := [.field none "u" {} [] [] (some [.inline (some ("U", {})) [] [.field none "__typename" {} [] [] none] {}])] }]
+
+/-- (a) is necessary: narrowing an EMPTY union to itself is accepted by the reference validator ("a type always
+    overlaps itself") but reported by the checker (`FragmentConditionNeverMatches`: no common member). -/
+theorem C04_no_false_alarm_counterexample_empty_union :
+    SchemaValid cexSchemaEmptyUnion ∧ SpecValid cexSchemaEmptyUnion cexDocEmptyUnion ∧
+    rootsDefinedB cexSchemaEmptyUnion cexDocEmptyUnion = true ∧ constVarDefsB cexDocEmptyUnion = true ∧
+    checkOp cexSchemaEmptyUnion cexDocEmptyUnion = [(ErrKind.FragmentConditionNeverMatches, {})] := by decide
+
+/-- `schema { query: Query }  type Query { a: Int }  type Mutation { a: Int }` -/
+def cexSchemaNoRoot : Schema := ⟨cexScalars ++ [
+  .schemaDef { roots := [(.query, "Query", {})] },
+  .typeDef { kind := .object, name := "Query", fields := [{ name := "a", ty := .named "Int" {} }] },
+  .typeDef { kind := .object, name := "Mutation", fields := [{ name := "a", ty := .named "Int" {} }] }]⟩
+/-- `mutation { a }` -/
+def cexDocNoRoot : Doc := [.op { kind := .mutation, sel := [.field none "a" {} [] [] none] }]
+
+/-- (b) is necessary: an explicit `schema { query: Query }` declares no mutation root; the reference validator
+    (October 2021 rules: no "operation type existence" rule, root type names defaulted) validates `mutation { a }`
+    against the type named `Mutation`, the checker reports `NoRootType`. -/
+theorem C04_no_false_alarm_counterexample_no_root :
+    SchemaValid cexSchemaNoRoot ∧ SpecValid cexSchemaNoRoot cexDocNoRoot ∧
+    noEmptyUnionB cexSchemaNoRoot = true ∧ constVarDefsB cexDocNoRoot = true ∧
+    checkOp cexSchemaNoRoot cexDocNoRoot = [(ErrKind.NoRootType, {})] := by decide
+
+/-- `type Query { f(x: Int): Int }` -/
+def cexSchemaConst : Schema := ⟨cexScalars ++ [
+  .typeDef { kind := .object, name := "Query",
+             fields := [{ name := "f", args := [{ name := "x", ty := .named "Int" {} }], ty := .named "Int" {} }] }]⟩
+/-- `query ($a: Int = $a) { f(x: $a) }` -/
+def cexDocConst : Doc := [
+  .op { kind := .query, vars := [{ name := "a", ty := .named "Int" {}, default := some (.var "a" {}) }],
+        sel := [.field none "f" {} [("x", {}, .var "a" {})] [] none] }]
+
+/-- (c) is necessary: a variable as a default value is excluded by the grammar (`Value[Const]`), not by a validation
+    rule, and the abstract syntax (like the nitrogql parser) admits it; the checker reports `UnknownVariable`. -/
+theorem C04_no_false_alarm_counterexample_nonconst_default :
+    SchemaValid cexSchemaConst ∧ SpecValid cexSchemaConst cexDocConst ∧
+    noEmptyUnionB cexSchemaConst = true ∧ rootsDefinedB cexSchemaConst cexDocConst = true ∧
+    checkOp cexSchemaConst cexDocConst = [(ErrKind.UnknownVariable, {})] := by decide
+
+/-- the unconditional statement `SchemaValid S → SpecValid S D → checkOp S D = []` is false of the model -/
+theorem C04_no_false_alarm_unconditional_false :
+    ¬ ∀ (S : Schema) (D : Doc), SchemaValid S → SpecValid S D → checkOp S D = [] := by
+  intro h
+  have h1 := C04_no_false_alarm_counterexample_no_root
+  have := h cexSchemaNoRoot cexDocNoRoot h1.1 h1.2.1
+  rw [h1.2.2.2.2] at this
+  cases this
+
 /-
-OPEN — carried by K/O only (stated, not proved):
+Status of the original statement
 
-theorem C04_no_false_alarm : SchemaValid S → SpecValid S D → checkOp S D = []
+  theorem C04_no_false_alarm : SchemaValid S → SpecValid S D → checkOp S D = []
 
-Proved so far: the header diagnostics of the main loop (`C04_no_false_alarm_document_level`), the duplicate-name /
-type diagnostics of `check_variables_definition` (`C04_no_false_alarm_variable_definitions`) and the target diagnostics
-of `check_fragment_definition` (`C04_no_false_alarm_fragment_targets`).
-Remaining obligations: for every definition, `defBody S D d = []` — i.e. completeness of `checkOperation`
-(directives, variable definitions' directives and defaults, the subscription root count, and the walk
-`checkSelectionSet` through fields, inline fragments and — by fuel — fragment spreads, including the adequacy of
-the fuel: on a spec-valid document the stack check fires before the fuel runs out) and of
-`checkFragmentDefinition` (the direct walk of fragments no operation spreads). The implementation is stricter
-than the specification in one place that the generators do not exercise and `SpecValid` does not exclude:
-`check_type_compatibility` compares named types by name only (as the spec does), but `checkValue` rejects every
-literal for an output-kind type, which `SchemaValid` rules out for argument types.
+It is FALSE of the model as stated (`C04_no_false_alarm_unconditional_false`). What is proved, for all schemas and
+documents, is `C04_no_false_alarm_partial`: the same conclusion under the decidable side conditions
+`noEmptyUnionB S`, `rootsDefinedB S D`, `constVarDefsB D`, each shown necessary by a witness. Nothing of the
+completeness direction remains OPEN inside the model; in particular the place where the OPEN block of the earlier
+waves suspected a gap — `checkValue` rejecting every literal for an output-kind type — is excluded by `SchemaValid`
+(argument and input-field types are input types) and 5.8.2 (variable types), as `C04_values_complete` shows.
+
+Carried by K/O only (not by proof): that the model is the Rust code (K), and that the real parser produces only
+documents satisfying (c) or, if not, that the real checker's `UnknownVariable` on them is the intended behaviour;
+that schemas accepted by the real schema check satisfy (a) (`union U =` is accepted by grammar and schema check,
+so (a) is an assumption on the schema, see design-notes/C04.md).
 -/
 
 end NitroVerif.CheckOp
